@@ -59,7 +59,9 @@ func TestC02(t *testing.T) {
 	run.SetRule("random workloads (uploads incl. split and repeated ones, Get/FindMissing with refreshes, rotations, both syncer goroutines " +
 		"stepped at every lock region and I/O operation, failing syncs and directory operations, crash+restart of the running store) on " +
 		"geometries of 4..16 byte sectors, 2..5 sectors per block, 4..9 blocks, 5..13 index records; after every step the post-crash media " +
-		"all-lost, all-kept and random subsets (thorough: every subset up to 8 pending writes) are rebuilt and read back; a case is " +
+		"all-lost, all-kept and random subsets (thorough: every subset up to 8 pending writes) are rebuilt and read back; every fourth " +
+		"case ends with a graceful shutdown (an upload inside its first data sync, its final data sync failing up to 3 times) followed by " +
+		"a process exit and by a power loss; NotifySyncCompleted must be preceded by a successful device Sync since NotifySyncStarting; a case is " +
 		"non-trivial when >= 2 uploads were acknowledged and it has >= 12 steps")
 
 	if name, script := run.ReplayScript(); script != nil {
@@ -82,7 +84,8 @@ func TestC02(t *testing.T) {
 	n := run.Scale(60, 600)
 	for i := 0; i < n && run.Findings() < 10; i++ {
 		rnd := hx.NewRand(run.Seed, "C02", i)
-		o := psx.Opts{Steps: rnd.Range(50, 90), Forks: 6, Crashes: true, Faults: i%3 == 0}
+		// every fourth case ends with a graceful shutdown (with failing final data syncs) followed by power loss
+		o := psx.Opts{Steps: rnd.Range(50, 90), Forks: 6, Crashes: true, Faults: i%3 == 0 || i%4 == 1, Shutdown: i%4 == 1}
 		if run.Thorough() {
 			o.Forks = 10
 			if i%6 == 0 {
